@@ -249,6 +249,12 @@ def runDtcwt (op : String) (ps : List Int) (ts : List (Option (T α))) : Res α 
     if J < 1 then .bad else
     let r := Spec.refForward s h0o.l1 h1o.l1 h0a.l1 h0b.l1 h1a.l1 h1b.l1 (J.toNat - 1) x.l2
     .ok (some (ofL2 r.1) :: r.2.map fun bands => some (ofL4 (bands.map l3OfCplx)))
+  /- the reference levels with band-pass diagonal filters on one image: level 1 with (h0o h1o h2o), then level 2 of its low-pass with
+     (h0a h0b h1a h1b h2a h2b); sides multiples of 4  ->  low1, bands1 (6,h,w,2), low2, bands2 -/
+  | "spec_levels_rot", [], [some h0o, some h1o, some h2o, some h0a, some h0b, some h1a, some h1b, some h2a, some h2b, some x] =>
+    let r1 := Spec.refLevel1Rot s h0o.l1 h1o.l1 h2o.l1 x.l2
+    let r2 := Spec.refLevel2Rot s h0a.l1 h0b.l1 h1a.l1 h1b.l1 h2a.l1 h2b.l1 r1.1
+    .ok [some (ofL2 r1.1), some (ofL4 (r1.2.map l3OfCplx)), some (ofL2 r2.1), some (ofL4 (r2.2.map l3OfCplx))]
   /- the reference inverse pyramid on one image: g0o g1o g0a g0b g1a g1b (raw tables) | low (h×w) | level_1 (6,h,w,2) ... -/
   | "spec_inverse", [], some g0o :: some g1o :: some g0a :: some g0b :: some g1a :: some g1b :: some low :: highs =>
     if highs.any (·.isNone) then .bad else
